@@ -78,7 +78,9 @@ func newWorld() *world {
 		w.clients = append(w.clients, c)
 		h := network.NewSimpleHTTPWithClientAndInterceptors(c, common...)
 		w.https = append(w.https, h)
-		w.apis = append(w.apis, network.NewSimpleAPIWithSimpleHTTP("http://api.test", h))
+		api := network.NewSimpleAPIWithSimpleHTTP("http://api.test", h)
+		api.DefaultHeader = http.Header{"X-Base": {"b"}} // (what interceptors add to a request must not settle in here)
+		w.apis = append(w.apis, api)
 		w.model = append(w.model, append([]string{}, initialCommon...))
 	}
 	// two spare clients per instance to switch to (an http.Client belongs to one SimpleHTTP: wrapping the
@@ -160,6 +162,13 @@ func (w *world) request(s int, verb string) string {
 		case "DoRequest":
 			req, _ := http.NewRequest("LINK", "http://api.test/x", nil)
 			err = h.DoRequest(req).Err
+		case "API-Post":
+			var target struct{}
+			resp := network.APIMakePostJSONBody[int, struct{}](w.apis[s], "x")(nil, 5, &target).Eval()
+			err = resp.Err
+			if err != nil && strings.Contains(err.Error(), "unexpected end of JSON input") {
+				err = nil
+			}
 		case "API":
 			var target struct{}
 			api := network.APIMakeGet[struct{}](w.apis[s], "x")
@@ -224,7 +233,7 @@ func (w *world) request(s int, verb string) string {
 		return fmt.Sprintf("request failed: %v", err)
 	}
 	wantMethod := map[string]string{"Get": "GET", "API": "GET", "Post": "POST", "Head": "HEAD", "Options": "OPTIONS", "Delete": "DELETE", "Put": "PUT", "Patch": "PATCH",
-		"DoNewRequest": "TRACE", "DoNewRequestWithBodyOptions": "REPORT", "DoRequest": "LINK"}[verb]
+		"DoNewRequest": "TRACE", "DoNewRequestWithBodyOptions": "REPORT", "DoRequest": "LINK", "API-Post": "POST"}[verb]
 	if w.lastMethod != wantMethod {
 		return fmt.Sprintf("%s reached the transport as a %s request", verb, w.lastMethod)
 	}
@@ -318,7 +327,7 @@ func run(all []op, prog []step) (fail string, key string) {
 	// every instance must answer a probe request according to its model (so a wrong list is seen
 	// even when the history ends with a registration)
 	for s := range w.https {
-		for _, verb := range []string{"Get", "Head", "Options", "Delete", "Post", "Put", "Patch", "DoNewRequest", "DoNewRequestWithBodyOptions", "DoRequest"} {
+		for _, verb := range []string{"Get", "Head", "Options", "Delete", "Post", "Put", "Patch", "DoNewRequest", "DoNewRequestWithBodyOptions", "DoRequest", "API", "API-Post", "API"} {
 			if f := w.request(s, verb); f != "" {
 				if verb != "Get" {
 					f = verb + ": " + f
@@ -754,6 +763,79 @@ func lateBound(r *lib.Report) int64 {
 	return n
 }
 
+// countSweep: n interceptors for every n up to 40 (the registration list is a Stream: it grows, and may be
+// re-allocated, at sizes the small histories never reach), registered one by one or in one call; a request,
+// every third removed, a request, three more added, a request.
+func countSweep(r *lib.Report) int64 {
+	var n64 int64
+	for n := 0; n <= 40; n++ {
+		for _, oneCall := range []bool{false, true} {
+			var log []string
+			mk := func(id int) *network.Interceptor {
+				var ic network.Interceptor = func(req *http.Request) error { log = append(log, fmt.Sprint(id)); return nil }
+				return &ic
+			}
+			var ics []*network.Interceptor
+			var live []int
+			for id := 0; id < n; id++ {
+				ics = append(ics, mk(id))
+				live = append(live, id)
+			}
+			fail := ""
+			p := lib.Catch(func() {
+				h := network.NewSimpleHTTPWithClientAndInterceptors(&http.Client{Transport: roundTripFunc(func(req *http.Request) (*http.Response, error) {
+					log = append(log, "T")
+					return &http.Response{StatusCode: 200, Status: "200 OK", Proto: "HTTP/1.1", ProtoMajor: 1, ProtoMinor: 1, Header: http.Header{}, Body: http.NoBody, Request: req}, nil
+				})})
+				if oneCall {
+					h.AddInterceptor(ics...)
+				} else {
+					for _, ic := range ics {
+						h.AddInterceptor(ic)
+					}
+				}
+				step := func(what string) {
+					log = nil
+					n64++
+					err := h.Get("http://api.test/x").Err
+					var want []string
+					for _, id := range live {
+						want = append(want, fmt.Sprint(id))
+					}
+					want = append(want, "T")
+					if fail == "" && (err != nil || fmt.Sprint(log) != fmt.Sprint(want)) {
+						fail = fmt.Sprintf("%s: call log %v (Err=%v), registered %v", what, log, err, live)
+					}
+				}
+				step(fmt.Sprintf("%d interceptors", n))
+				var keep []int
+				for i, id := range live {
+					if i%3 == 2 {
+						h.RemoveInterceptor(ics[id])
+					} else {
+						keep = append(keep, id)
+					}
+				}
+				live = keep
+				step(fmt.Sprintf("%d interceptors, every third removed", n))
+				for k := 0; k < 3; k++ {
+					ics = append(ics, mk(n+k))
+					h.AddInterceptor(ics[n+k])
+					live = append(live, n+k)
+				}
+				step(fmt.Sprintf("%d interceptors, every third removed, three added", n))
+			})
+			if p != "" {
+				fail = "panic: " + p
+			}
+			if fail != "" {
+				r.Violation("C18|count-sweep|wrong-interceptors", fmt.Sprintf("registered in one call=%v; %s", oneCall, fail), map[string]interface{}{"interceptors": n, "one_call": oneCall})
+			}
+		}
+	}
+	return n64
+}
+
 type roundTripFunc func(req *http.Request) (*http.Response, error)
 
 func (f roundTripFunc) RoundTrip(req *http.Request) (*http.Response, error) { return f(req) }
@@ -797,6 +879,7 @@ func main() {
 	trans += nestedRequests(r)
 	trans += contextRequests(r)
 	trans += lateBound(r)
+	trans += countSweep(r)
 	r.Cov["states"] = len(seen)
 	r.Cov["transitions"] = trans
 	r.Cov["traces_validated_against_impl"] = trans
